@@ -38,7 +38,14 @@ def enum_space(ct):
         elif ct.shapes.get(p) == 'rnd' or (p == 'rnd' and p not in ct.shapes):
             names.append(p)
             spaces.append(list(spec.RND5))
-    return [dict(zip(names, combo)) for combo in itertools.product(*spaces)] or [{}]
+    base = [dict(zip(names, combo)) for combo in itertools.product(*spaces)] or [{}]
+    out = list(base)
+    for var in ct.variants:
+        for b in base:
+            d = dict(b)
+            d.update(var)
+            out.append(d)
+    return out
 
 
 def entry_env(ct, enum_assign):
